@@ -78,14 +78,18 @@ prop("C09", "proof",
      "Trusted: strto* axioms of stubs/numtext.c (ISO C clamping/negation rules), CBMC's strcmp/strcasecmp models, "
      "C locale for case folding. Literals with trailing text are left unspecified, as in the statement.",
      "CBMC function contracts (dfcc) on the typed getters, full-domain symbolic literals", "6 C09")
-prop("C10", "proof",
-     "Frame conditions (__CPROVER_assigns) enforced by dfcc on every query function: the only memory a query may "
-     "write is its out-parameter, errno and memory it allocated itself; every write in the call tree, through any "
-     "alias, is checked against that frame for entry arrays of any length.",
-     "Trusted: the libc models used (they are instrumented by dfcc as well). Functions whose loops need an input "
-     "bound are reported as bounded and not counted as discharged.",
-     "CBMC assigns-clause (frame) checking with dfcc on all read-only API functions", "6 C10")
-prop("C06", "proof",
+prop("C10", "model_checking",
+     "Frame conditions (__CPROVER_assigns) enforced by dfcc (T1, any object size) on the typed per-entry getters, the "
+     "eight public econf_get<T>Value wrappers (the section name is edited in a private copy), the tag queries and "
+     "econf_mergeFiles' top level: the only memory a query may write is its out-parameter, errno and memory it "
+     "allocated itself. For the listing functions, the extended getter, the writer and the merge workers (not under "
+     "dfcc) the harness compares every entry pointer, flag and text of the object(s) before and after the call "
+     "(bounded jobs api.*, extvalue.*, writer.*, merge.*).",
+     "Trusted: the libc models used (they are instrumented by dfcc as well). Bounded parts: <= 3 entries, short "
+     "texts; they are reported as bounded and not counted as discharged.",
+     "CBMC assigns-clause (frame) checking with dfcc on getters/wrappers/tags/merge top level + bounded before/after "
+     "comparison for listings, extended getter, writer, merge", "6 C10")
+prop("C06", "model_checking",
      "The single choke point read_file_with_callback is under a CBMC contract (loop-free, every lstat result, "
      "every flag state, callback absent/accepting/rejecting): the callback is called exactly once with the exact "
      "path and data pointer before the parser, a rejection returns ECONF_PARSING_CALLBACK_FAILED without the "
